@@ -39,7 +39,7 @@ BUDGET = {'quick': 45, 'thorough': 600}
 QUOTA = {'quick': 250, 'thorough': 5000}
 REQUIRED = {'quick': {'evaluations': 1500, 'links_compared': 5000, 'patterns_exhaustive_cases': 1200,
                       'assoc_fields_compared': 200, 'nested_views_checked': 1500, 'chain_cases': 100,
-                      'explicit_list_cases': 20},
+                      'explicit_list_cases': 20, 'encodes_checked': 800, 'encodes_with_per_subset_bitmaps': 100},
             'thorough': {'evaluations': 20000, 'links_compared': 80000, 'patterns_exhaustive_cases': 10000,
                          'assoc_fields_compared': 3000, 'nested_views_checked': 20000, 'chain_cases': 1500,
                          'explicit_list_cases': 200}}
@@ -241,7 +241,7 @@ def features(msg):
     return f
 
 
-def compare_case(ctx, dec, msg, origin, name=None, extra=None):
+def compare_case(ctx, dec, msg, origin, name=None, extra=None, enc=None):
     if not cases.self_consistent(msg):
         ctx.count('r_self_fail')
         return
@@ -301,6 +301,38 @@ def compare_case(ctx, dec, msg, origin, name=None, extra=None):
             ctx.violate('%s/%s/%s/ops[%s]' % (r[0], mode, fsig, opsig(msg.ids)),
                         'nested view of subset %d: %s' % (k, r[1]), spec)
             return
+    if enc is not None and not msg.noncanon:
+        encode_side(ctx, dec, enc, msg, spec, mode, fsig)
+
+
+def encode_side(ctx, dec, enc, msg, spec, mode, fsig):
+    """the encoder must designate the same owners: values given in flat order (bitmaps may differ per
+    subset) encode to R's bytes (uncompressed) / to a message that decodes to R's links (compressed)"""
+    if any(me and me[0] == 'n' and me[2] > 0 and me[1] > 48 for s in msg.subsets for me in s.meta):
+        return
+    ctx.count('encodes_checked')
+    if len(set(tuple(sorted(s.links.items())) for s in msg.subsets)) > 1:
+        ctx.count('encodes_with_per_subset_bitmaps')
+    try:
+        out = enc.process(json.dumps(R.flat_json(msg))).serialized_bytes
+    except Exception as e:
+        ctx.violate('encode-raises:%s/%s/%s' % (type(e).__name__, mode, fsig),
+                    'encoder raised %s on conforming bitmap/associated-field values: %s' % (type(e).__name__, str(e)[:120]), spec, exc=e)
+        return
+    if not msg.compressed:
+        if out != msg.bytes:
+            ctx.violate('encode-bytes-differ/%s/%s' % (mode, fsig), 'encoder output differs from the reference message '
+                        '(attribute values written for other owners than the bitmap designates?)', spec,
+                        expected=msg.bytes.hex(), observed=out.hex())
+        return
+    try:
+        d = diff_message(dec.process(out), msg.subsets, check_links=True)
+    except Exception as e:
+        ctx.violate('encode-output-undecodable:%s/%s/%s' % (type(e).__name__, mode, fsig), 'encoder output does not decode: %s' % str(e)[:120], spec, exc=e)
+        return
+    if d:
+        ctx.violate('encode-then-decode/%s/%s/%s' % (d[1], mode, fsig), 'encoded message decodes to %s that differ from the reference at subset %s field %s'
+                    % (d[1], d[0], d[2]), spec)
 
 
 def build(ctx, ids, pol, nsub, comp, ed=4, mtv=33):
@@ -315,7 +347,9 @@ def build(ctx, ids, pol, nsub, comp, ed=4, mtv=33):
 
 def run(ctx):
     from pybufrkit.decoder import Decoder
+    from pybufrkit.encoder import Encoder
     dec = Decoder()
+    enc = Encoder()
     rng = ctx.rng
     maxn = 7 if ctx.quick else 8
     # (a) exhaustive bitmap patterns
@@ -340,7 +374,7 @@ def run(ctx):
                             continue
                         ctx.count('patterns_exhaustive_cases')
                         ctx.add('bitmap_lengths', N)
-                        compare_case(ctx, dec, msg, 'pattern', bname, dict(op=op, pattern=''.join(map(str, pat))))
+                        compare_case(ctx, dec, msg, 'pattern', bname, dict(op=op, pattern=''.join(map(str, pat))), enc=enc if n % 3 == 0 else None)
     # (b) chains, (c) associated fields
     k = 0
     for name, ids in CHAIN_SHAPES + ASSOC_SHAPES:
@@ -355,7 +389,7 @@ def run(ctx):
                     continue
                 ctx.count('chain_cases' if (name, ids) in CHAIN_SHAPES else 'assoc_cases')
                 ctx.add('shapes', name)
-                compare_case(ctx, dec, msg, 'shape', name)
+                compare_case(ctx, dec, msg, 'shape', name, enc=enc)
     # (d) explicit 031031 lists
     k = 0
     for N in range(1, 6):
@@ -369,7 +403,7 @@ def run(ctx):
                 if msg is None:
                     continue
                 ctx.count('explicit_list_cases')
-                compare_case(ctx, dec, msg, 'explicit-list', None, dict(op=op, pattern=''.join(map(str, pat))))
+                compare_case(ctx, dec, msg, 'explicit-list', None, dict(op=op, pattern=''.join(map(str, pat))), enc=enc)
     # (e) random templates with bitmap tails
     q = 0
     while q < QUOTA[ctx.tier] and ctx.more():
@@ -382,7 +416,7 @@ def run(ctx):
         if msg is None:
             continue
         ctx.count('random_cases')
-        compare_case(ctx, dec, msg, 'random')
+        compare_case(ctx, dec, msg, 'random', enc=enc)
 
 
 def replay(ctx, case):
